@@ -42,7 +42,9 @@ def mantissas(tier, rnd):
             "-0.9999999999999999999999999", "6.9999999999999999999999", "1.0000000000000000000000001",
             "0.3333333333333333333333333333",
             # whole mantissas of 29-31 digits (beyond the decimal context's precision), also written with an exponent
-            "1E+30", "123456789012345678901234567890", "-1E+28", "5E+29"]
+            "1E+30", "123456789012345678901234567890", "-1E+28", "5E+29",
+            # negative values far smaller than the comparison tolerance: still negative, their absolute value positive
+            "-1E-21", "-4.2E-24", "-0.000000000000000000000001"]
     n = 60 if tier == "thorough" else 8
     for _ in range(n):
         digits = rnd.randint(1, 25)
